@@ -36,6 +36,8 @@ package mint
 //@ macro okproof(m, p) = len(p.Secret) <= 512 && (p.Id in m.keysets) && (p.Amount in m.keysets[p.Id].Keys) && hexok(p.C) && pt.parseok(hexdec(p.C)) && pt.parse(hexdec(p.C)) == smul(sc.of(m.keysets[p.Id].Keys[p.Amount].PrivateKey.Key), h2c(bytesOf(p.Secret))) && (nut10.ok(p.Secret) && nut10.parse(p.Secret).Kind == nut10.P2PK ==> (exists t :: p2pk.verdict(p, nut10.parse(p.Secret), t) == nil)) && (nut10.ok(p.Secret) && nut10.parse(p.Secret).Kind == nut10.HTLC ==> (exists t :: htlc.verdict(p, nut10.parse(p.Secret), t) == nil))
 
 //@ func (*Mint).verifyProofs
+// rely/guarantee tier: every store step of this operation is a step the rely clauses allow
+//@   rgensures @steps [C01,C03] true
 //@   ensures @cashuerr [C20] err != nil ==> iscashu(err) && !valinternal(err) && !lnerr(err)
 //@   tags C01 C04 C12 C13
 //@   safety C06
@@ -131,6 +133,8 @@ package mint
 //@ macro ysof(Ys, proofs) = len(Ys) == len(proofs) && (forall i :: 0 <= i && i < len(proofs) ==> Ys[i] == Yof(proofs[i].Secret))
 
 //@ func (*Mint).settleProofs
+// rely/guarantee tier: every store step of this operation is a step the rely clauses allow
+//@   rgensures @steps [C01,C03] true
 //@   ensures @cashuerr [C20] err != nil ==> iscashu(err) && !valinternal(err)
 //@   tags C01 C05
 //@   safety C06
@@ -143,6 +147,8 @@ package mint
 //@   ensures @errisfault [C06] err != nil && (forall i :: 0 <= i && i < len(Ys) ==> !old(db.spent)[Ys[i]]) && (forall i, j :: 0 <= i && i < j && j < len(Ys) ==> Ys[i] != Ys[j]) ==> db.faults > old(db.faults)
 
 //@ func (*Mint).removePendingProofsForQuote
+// rely/guarantee tier: every store step of this operation is a step the rely clauses allow
+//@   rgensures @steps [C01,C03] true
 //@   tags C01 C05
 //@   safety C06
 //@   requires minv(m)
@@ -155,6 +161,8 @@ package mint
 //@   ensures @errisfault [C06] err != nil ==> db.faults > old(db.faults)
 
 //@ func (*Mint).settleQuotesInternally
+// (not in the rely/guarantee tier: writing PAID for an internal settlement is a second payment of the
+// invoice; the rely clause 'issued stays issued' is deliberately stronger than that corner)
 //@   ensures @cashuerr [C20] err != nil ==> iscashu(err) && !valinternal(err)
 //@   tags C02 C03 C05
 //@   safety C06
@@ -214,6 +222,8 @@ package mint
 //@ macro quoteproofsfree(q) = (forall y Str :: old(db.pending)[y] && old(db.pendrow)[y].MeltQuoteId == q ==> !db.pending[y] && db.spent[y] == old(db.spent)[y])
 
 //@ func (*Mint).GetMeltQuoteState
+// rely/guarantee tier: every store step of this operation is a step the rely clauses allow
+//@   rgensures @steps [C01,C03] true
 //@   records api.err api.calls
 //@   ensures @cashuerr [C20] err != nil ==> iscashu(err) && !valinternal(err)
 //@   tags C01 C05 C15
@@ -237,6 +247,8 @@ package mint
 //@ macro truestate(ps, y) = (db.spent[y] ==> ps.State == nut07.Spent && ps.Witness == db.spentrow[y].Witness) && (!db.spent[y] && db.pending[y] ==> ps.State == nut07.Pending && ps.Witness == db.pendrow[y].Witness) && (!db.spent[y] && !db.pending[y] ==> ps.State == nut07.Unspent && ps.Witness == "")
 
 //@ func (*Mint).ProofsStateCheck
+// rely/guarantee tier: every store step of this operation is a step the rely clauses allow
+//@   rgensures @steps [C01,C03] true
 //@   records api.err api.calls
 //@   ensures @cashuerr [C20] err != nil ==> iscashu(err) && !valinternal(err)
 //@   tags C15 C01 C05
@@ -253,6 +265,8 @@ package mint
 //@   ensures @dbinv [C01,C05] dbinv()
 
 //@ func (*Mint).RestoreSignatures
+// rely/guarantee tier: every store step of this operation is a step the rely clauses allow
+//@   rgensures @steps [C01,C03] true
 //@   records api.err api.calls
 //@   ensures @cashuerr [C20] err != nil ==> iscashu(err) && !valinternal(err)
 //@   tags C15
@@ -280,6 +294,8 @@ package mint
 //@   ensures @errisfault [C16] err != nil ==> db.faults > old(db.faults)
 
 //@ func (*Mint).RequestMintQuote
+// rely/guarantee tier: every store step of this operation is a step the rely clauses allow
+//@   rgensures @steps [C01,C03] true
 //@   records api.err api.calls
 //@   ensures @cashuerr [C20] err != nil ==> iscashu(err) && !valinternal(err)
 //@   tags C16 C03 C02
@@ -294,6 +310,8 @@ package mint
 //@   ensures @others [C03] forall q Str :: old(db.mq)[q] ==> db.mq[q] && db.mqrow[q] == old(db.mqrow)[q]
 
 //@ func (*Mint).RequestMeltQuote
+// rely/guarantee tier: every store step of this operation is a step the rely clauses allow
+//@   rgensures @steps [C01,C03] true
 //@   records api.err api.calls
 //@   ensures @cashuerr [C20] err != nil ==> iscashu(err) && !valinternal(err) && !lnerr(err)
 //@   tags C16 C02 C05
@@ -328,6 +346,8 @@ package mint
 // The background watcher blocks on a channel: other requests run meanwhile
 // (yield point), so the state it read at the start is stale when it writes.
 //@ func (*Mint).checkInvoicePaid
+// rely/guarantee tier: every store step of this operation is a step the rely clauses allow
+//@   rgensures @steps [C01,C03] true
 //@   tags C03
 //@   safety C06
 //@   requires minv(m)
@@ -356,6 +376,8 @@ package mint
 // untouched), the new one is generated from (seed, old index + 1) with the
 // requested fee, stored as the active row with exactly these values.
 //@ func (*Mint).RotateKeyset
+// rely/guarantee tier: every store step of this operation is a step the rely clauses allow
+//@   rgensures @steps [C01,C03] true
 //@   tags C09 C07
 //@   safety C06 C09
 //@   requires minv(m)
